@@ -4,6 +4,7 @@ tree is snapshot), H4 line probe on the bracket automaton's locals, files from
 the independent encoders of vt/codec.py, and a complete sweep of bracket
 token-class sequences judged by an independent scanner."""
 import gzip
+import os
 import inspect
 import io
 import itertools
@@ -312,7 +313,9 @@ def read_all(ctx, fmt, path, enc, opts):
     exc = None
     with common.captured() as (out, err):
         try:
-            with probe.step_budget(5000000):
+            # generous and growing with the file: separates "does not
+            # terminate" from "slow"
+            with probe.step_budget(5000000 + 20000 * os.path.getsize(path)):
                 for t in getattr(R.treeinput, fmt)(path, enc, **opts):
                     trees.append(t)
         except BaseException as e:
